@@ -12,6 +12,8 @@
 (*   layouts: maps = per segment layout of one deletion-free corpus, the hits   *)
 (*            [[document, score rank]..] of the same query (documents named by  *)
 (*            their docnum in the first layout): all layouts must agree (C09)    *)
+(*   scoresub: hits = [[docnum, score]..] some search returned: each score must   *)
+(*            be the documented one, whatever else was or was not returned (C09)  *)
 (*   termstats: f, t, n, df, cf4, totlen, docs = [[docnum, weight*4, length]..]  *)
 (*            the statistics the weighting formulas are fed with (C09)           *)
 (* A REJECT line carries what the specification expected instead.             *)
@@ -67,6 +69,7 @@ LayoutsOK(m, o) == /\ \A i \in DOMAIN o.maps : ToSet(o.maps[i]) = ToSet(o.maps[1
 Expected(idx, m, q, o) ==
   CASE o.kind = "ids" -> [ids |-> Ids(m)]
     [] o.kind = "layouts" -> [same_in_every_layout |-> TRUE, documents |-> Ids(m)]
+    [] o.kind = "scoresub" -> [scores |-> Hits(m, Ids(m))]
     [] o.kind = "termstats" -> TermStats(idx, o.f, o.t)
     [] o.kind = "count" -> [n |-> Cardinality(DOMAIN m)]
     [] o.kind = "ranked" -> [hits |-> Hits(m, TopK(m, o.k)), scored |-> Scored(q)]
@@ -79,6 +82,8 @@ Expected(idx, m, q, o) ==
 ObsOK(idx, m, q, o) ==
   CASE o.kind = "ids" -> o.ids = Ids(m)
     [] o.kind = "layouts" -> LayoutsOK(m, o)
+    [] o.kind = "scoresub" ->      \* whatever a limited search returned carries the documented score (C09)
+         Scored(q) => \A i \in DOMAIN o.hits : o.hits[i][1] \in DOMAIN m /\ m[o.hits[i][1]] = o.hits[i][2]
     [] o.kind = "termstats" -> LET S == TermStats(idx, o.f, o.t) IN
          /\ o.n = S.n /\ o.df = S.df /\ o.cf4 = S.cf4 /\ o.totlen = S.totlen /\ o.docs = S.docs
     [] o.kind = "count" -> o.n = Cardinality(DOMAIN m)
